@@ -4,6 +4,7 @@ import (
 	"context"
 	"fmt"
 	"math/bits"
+	"sync"
 	"testing"
 	"testing/synctest"
 	"time"
@@ -28,6 +29,7 @@ type C15Scenario struct {
 	J         int    `json:"j"`                   // index of the failing GetByHeight / relative height of the forged intermediate
 	Via       string `json:"via"`                 // gossip | head
 	SoftType  bool   `json:"soft_type,omitempty"` // the header type reports every rejection as soft, also for adjacent headers
+	Joiner    bool   `json:"joiner,omitempty"`    // via head: a second Head() caller arrives while the request is in flight
 }
 
 func genC15(maxD int) func(t *rapid.T) C15Scenario {
@@ -41,6 +43,7 @@ func genC15(maxD int) func(t *rapid.T) C15Scenario {
 			J:         rapid.IntRange(0, 40).Draw(t, "j"),
 			Via:       rapid.SampledFrom([]string{"gossip", "gossip", "head"}).Draw(t, "via"),
 			SoftType:  rapid.IntRange(0, 3).Draw(t, "softtype") == 0,
+			Joiner:    rapid.Bool().Draw(t, "joiner"),
 		}
 		switch rapid.IntRange(0, 5).Draw(t, "dclass") {
 		case 0:
@@ -150,6 +153,9 @@ func runC15(t *testing.T, s C15Scenario) (res Result) {
 		}
 		dd := uint64(s.D)
 		budget := int(dd)*(bits.Len64(dd)+2) + 8
+		if s.Via == "head" && s.Joiner {
+			budget *= 2
+		}
 		e.getter.set(func() {
 			e.getter.MaxByHeight = budget
 			if s.Getter != "fail_at" {
@@ -169,17 +175,45 @@ func runC15(t *testing.T, s C15Scenario) (res Result) {
 			if s.Candidate == "forged" {
 				e.getter.set(func() { e.getter.HeadMode, e.getter.ExpiredHdr = "expired", cand }) // "expired" mode = hand out ExpiredHdr
 			}
-			headRet, verr = e.syncer.Head(ctx)
+			if s.Joiner {
+				// the head request takes a moment; a second caller joins it and must get the same treatment
+				// (header together with its soft error, hence bifurcation), not the bare header
+				e.getter.set(func() { e.getter.HeadDelay = 50 * time.Millisecond })
+				var jwg sync.WaitGroup
+				var jRet *vh.Header
+				var jErr error
+				jwg.Add(2)
+				go func() {
+					defer jwg.Done()
+					headRet, verr = e.syncer.Head(ctx)
+				}()
+				synctest.Wait()
+				go func() {
+					defer jwg.Done()
+					jRet, jErr = e.syncer.Head(ctx)
+				}()
+				jwg.Wait()
+				e.getter.set(func() { e.getter.HeadDelay = 0 })
+				if jErr == nil && (jRet == nil || !chain.IsCanonical(jRet)) {
+					res.failf("the Head() caller that joined the in-flight request got %v, which is not a header of the chain", jRet)
+					return
+				}
+			} else {
+				headRet, verr = e.syncer.Head(ctx)
+			}
 		}
 		elapsed := time.Since(t0)
 		calls := e.getter.Calls()[callsBefore:]
 		nByHeight := 0
 		failedSeen := false
+		// with a joining Head() caller there are two searches, one after the other: the second one starts
+		// after the first one's getter failure and the request bound applies to each
+		twoSearches := s.Via == "head" && s.Joiner
 		for _, c := range calls {
 			if c.Method != "GetByHeight" {
 				continue
 			}
-			if failedSeen {
+			if failedSeen && !twoSearches {
 				res.failf("bifurcation went on requesting intermediates (GetByHeight(%d)) after the getter had failed", c.A)
 				return
 			}
@@ -200,6 +234,9 @@ func runC15(t *testing.T, s C15Scenario) (res Result) {
 		}
 		d := uint64(s.D)
 		bound := int(d) * (bits.Len64(d) + 2)
+		if twoSearches {
+			bound *= 2
+		}
 		rounds := 0
 		if soft {
 			rounds = nByHeight
